@@ -424,6 +424,9 @@ func RunParent(o *Options) int {
 	if capS == 0 {
 		capS = 120
 	}
+	if v, err := strconv.Atoi(os.Getenv("POLYSIM_CAP")); err == nil && v > 0 { // development: force an early wall cap
+		capS = v
+	}
 	w := o.Workers
 	if w <= 0 {
 		w = runtime.NumCPU()
@@ -444,81 +447,146 @@ func RunParent(o *Options) int {
 		out *bytes.Buffer
 		err *bytes.Buffer
 	}
-	var jobs []job
-	// interleave run indices in contiguous blocks
+	total := &workerResult{Faults: map[string]int{}, Probes: map[string]int{}, OtherProps: map[string]int{}}
+	sigs, states := map[string]struct{}{}, map[string]struct{}{}
+	trouble := false
+	var digests []string
+	// phase runs the given index ranges in worker processes and merges their results; it
+	// returns the ranges the workers did not get to before the wall cap.
+	var crashed [][2]int
+	phase := func(ranges [][2]int) (rest [][2]int, startErr bool) {
+		var jobs []job
+		for _, rg := range ranges {
+			args := []string{"-test.run=^TestSim$", "-test.timeout=0", "-prop", c.ID, "-tier", o.Tier, "-seed", strconv.FormatUint(o.Seed, 10),
+				"-worker", "-from", strconv.Itoa(rg[0]), "-to", strconv.Itoa(rg[1]), "-deadline", strconv.Itoa(capS), "-verifdir", o.VerifDir}
+			cmd := exec.Command(self, args...)
+			var ob, eb bytes.Buffer
+			cmd.Stdout, cmd.Stderr = &ob, &eb
+			cmd.Env = append(os.Environ(), "POLYSIM_CHILD=1")
+			if err := cmd.Start(); err != nil {
+				fmt.Fprintln(os.Stderr, "cannot start worker:", err)
+				return nil, true
+			}
+			jobs = append(jobs, job{cmd, &ob, &eb})
+		}
+		for ji, j := range jobs {
+			err := j.cmd.Wait()
+			var r *workerResult
+			sc := bufio.NewScanner(bytes.NewReader(j.out.Bytes()))
+			sc.Buffer(make([]byte, 1<<20), 1<<28)
+			for sc.Scan() {
+				line := sc.Text()
+				if strings.HasPrefix(line, "POLYSIM-RESULT ") {
+					r = &workerResult{}
+					if e := json.Unmarshal([]byte(line[len("POLYSIM-RESULT "):]), r); e != nil {
+						r = nil
+					}
+				}
+			}
+			if err != nil || r == nil {
+				// keep the whole stderr of a crashed worker for diagnosis
+				os.MkdirAll(filepath.Join(o.VerifDir, ".work"), 0o755)
+				logf := filepath.Join(o.VerifDir, ".work", fmt.Sprintf("worker-crash-%s-%d-%d.log", c.ID, ranges[ji][0], time.Now().UnixNano()))
+				os.WriteFile(logf, append([]byte(fmt.Sprintf("range %v err %v\n", ranges[ji], err)), j.err.Bytes()...), 0o644)
+				tail := j.err.String()
+				if len(tail) > 4000 {
+					tail = tail[len(tail)-4000:]
+				}
+				fmt.Fprintf(os.Stderr, "worker failed (full stderr in %s): %v\n%s\n", logf, err, tail)
+				crashed = append(crashed, ranges[ji])
+				continue
+			}
+			total.Runs += r.Runs
+			total.Evals += r.Evals
+			total.Steps += r.Steps
+			total.SimTimeMs += r.SimTimeMs
+			for k, v := range r.Faults {
+				total.Faults[k] += v
+			}
+			for k, v := range r.Probes {
+				total.Probes[k] += v
+			}
+			for k, v := range r.OtherProps {
+				total.OtherProps[k] += v
+			}
+			for _, s := range r.Sigs {
+				sigs[s] = struct{}{}
+			}
+			for _, s := range r.States {
+				states[s] = struct{}{}
+			}
+			if len(total.Samples) < 3 {
+				total.Samples = append(total.Samples, r.Samples...)
+			}
+			total.Violations = append(total.Violations, r.Violations...)
+			total.StoppedEarly = total.StoppedEarly || r.StoppedEarly
+			digests = append(digests, r.TraceDigest)
+			if done := ranges[ji][0] + r.Runs; r.StoppedEarly && done < ranges[ji][1] {
+				rest = append(rest, [2]int{done, ranges[ji][1]})
+			}
+		}
+		return rest, false
+	}
+	// contiguous blocks of run indices per worker
+	var ranges [][2]int
 	per := (runs + w - 1) / w
 	for i := 0; i < w; i++ {
 		from, to := i*per, (i+1)*per
 		if to > runs {
 			to = runs
 		}
-		if from >= to {
-			continue
+		if from < to {
+			ranges = append(ranges, [2]int{from, to})
 		}
-		args := []string{"-test.run=^TestSim$", "-test.timeout=0", "-prop", c.ID, "-tier", o.Tier, "-seed", strconv.FormatUint(o.Seed, 10),
-			"-worker", "-from", strconv.Itoa(from), "-to", strconv.Itoa(to), "-deadline", strconv.Itoa(capS), "-verifdir", o.VerifDir}
-		cmd := exec.Command(self, args...)
-		var ob, eb bytes.Buffer
-		cmd.Stdout, cmd.Stderr = &ob, &eb
-		cmd.Env = append(os.Environ(), "POLYSIM_CHILD=1")
-		if err := cmd.Start(); err != nil {
-			fmt.Fprintln(os.Stderr, "cannot start worker:", err)
+	}
+	rest, bad := phase(ranges)
+	if bad {
+		return 2
+	}
+	// A worker process that died (not a property verdict) is re-run once, alone: runs are
+	// deterministic, so a crash caused by the engine or the code under test repeats and is
+	// reported as trouble; one caused by the environment (memory pressure, a killed process)
+	// does not. Retries are recorded in the evidence.
+	workerRetries := 0
+	if len(crashed) > 0 {
+		again := crashed
+		crashed = nil
+		for _, rg := range again {
+			workerRetries++
+			fmt.Printf("polysim: worker for runs %d..%d died; re-running that range once\n", rg[0], rg[1])
+			r2, bad := phase([][2]int{rg})
+			if bad {
+				return 2
+			}
+			rest = append(rest, r2...)
+		}
+		if len(crashed) > 0 {
+			trouble = true
+		}
+	}
+	missing := func() string {
+		m := ""
+		for _, p := range c.RequiredProbes {
+			if total.Probes[p] == 0 && total.Faults[p] == 0 {
+				m += " " + p
+			}
+		}
+		return m
+	}
+	// A slow or loaded machine reaches the wall cap early; that must not turn into an
+	// inconclusive batch: while a required probe is still at zero and nothing was found, the
+	// runs the workers did not get to are executed in (at most two) further phases.
+	extended := 0
+	for extended < 2 && !trouble && len(rest) > 0 && len(total.Violations) == 0 && missing() != "" {
+		extended++
+		fmt.Printf("polysim: wall cap reached with required probes at zero (%s): running the remaining %d index ranges (extension %d)\n", strings.TrimSpace(missing()), len(rest), extended)
+		rest, bad = phase(rest)
+		if bad {
 			return 2
 		}
-		jobs = append(jobs, job{cmd, &ob, &eb})
 	}
-	total := &workerResult{Faults: map[string]int{}, Probes: map[string]int{}, OtherProps: map[string]int{}}
-	sigs, states := map[string]struct{}{}, map[string]struct{}{}
-	trouble := false
-	var digests []string
-	for _, j := range jobs {
-		err := j.cmd.Wait()
-		var r *workerResult
-		sc := bufio.NewScanner(bytes.NewReader(j.out.Bytes()))
-		sc.Buffer(make([]byte, 1<<20), 1<<28)
-		for sc.Scan() {
-			line := sc.Text()
-			if strings.HasPrefix(line, "POLYSIM-RESULT ") {
-				r = &workerResult{}
-				if e := json.Unmarshal([]byte(line[len("POLYSIM-RESULT "):]), r); e != nil {
-					r = nil
-				}
-			}
-		}
-		if err != nil || r == nil {
-			trouble = true
-			tail := j.err.String()
-			if len(tail) > 4000 {
-				tail = tail[len(tail)-4000:]
-			}
-			fmt.Fprintf(os.Stderr, "worker failed: %v\n%s\n", err, tail)
-			continue
-		}
-		total.Runs += r.Runs
-		total.Evals += r.Evals
-		total.Steps += r.Steps
-		total.SimTimeMs += r.SimTimeMs
-		for k, v := range r.Faults {
-			total.Faults[k] += v
-		}
-		for k, v := range r.Probes {
-			total.Probes[k] += v
-		}
-		for k, v := range r.OtherProps {
-			total.OtherProps[k] += v
-		}
-		for _, s := range r.Sigs {
-			sigs[s] = struct{}{}
-		}
-		for _, s := range r.States {
-			states[s] = struct{}{}
-		}
-		if len(total.Samples) < 3 {
-			total.Samples = append(total.Samples, r.Samples...)
-		}
-		total.Violations = append(total.Violations, r.Violations...)
-		total.StoppedEarly = total.StoppedEarly || r.StoppedEarly
-		digests = append(digests, r.TraceDigest)
+	if len(crashed) > 0 {
+		trouble = true
 	}
 	if trouble {
 		fmt.Println("polysim: worker trouble (harness/build problem, not a property verdict)")
@@ -563,12 +631,7 @@ func RunParent(o *Options) int {
 		fmt.Println(l)
 	}
 	// required probes
-	inconclusive := ""
-	for _, p := range c.RequiredProbes {
-		if total.Probes[p] == 0 && total.Faults[p] == 0 {
-			inconclusive += " " + p
-		}
-	}
+	inconclusive := missing()
 	wall := time.Since(start).Seconds()
 	ev := map[string]interface{}{
 		"property_id": c.ID, "tier": o.Tier, "seed": int64(o.Seed & 0x7fffffffffffffff), "level": c.Level,
@@ -589,7 +652,7 @@ func RunParent(o *Options) int {
 		"steps": total.Steps, "simulated_time_s": float64(total.SimTimeMs) / 1000,
 		"faults_fired": total.Faults, "probes": total.Probes, "distinct_states": len(states),
 		"components_real": c.Real, "components_stub": c.Stub, "engine": c.Engine,
-		"known_findings_reobserved": len(knownLines), "stopped_at_wall_cap": total.StoppedEarly,
+		"known_findings_reobserved": len(knownLines), "stopped_at_wall_cap": total.StoppedEarly, "extension_phases_after_wall_cap": extended, "worker_processes_rerun_after_crash": workerRetries,
 		"violations_of_other_properties_seen": total.OtherProps,
 		"exhaustive":                          c.Exhaustive,
 	}
